@@ -50,7 +50,7 @@ var tablesCmd = &factsCmd{
 	outFile: "Tables.lean",
 	ns:      "BexprGen.Tables",
 	schema:  tablesSchema,
-	load:    loadFixed(tablesFiles...),
+	load:    loadFixedPlusRoot(tablesFiles...),
 	extract: extractTables,
 }
 
@@ -58,11 +58,11 @@ func runTables(args []string) int { return tablesCmd.run(args) }
 
 func extractTables(files map[string]*srcFile) (map[string]lval, []string) {
 	ev, co, as := files["evaluate.go"], files["coerce.go"], files["grammar/ast.go"]
-	pkg := []*srcFile{ev, co, files["options.go"], files["bexpr.go"], files["filter.go"]}
+	pkg := rootFiles(files, "evaluate.go", "coerce.go", "options.go", "bexpr.go", "filter.go")
 	vals := map[string]lval{}
 
 	// a. eqFnTable
-	eqTable, _ := kindTable(findFn("primitiveEqualityFn", ev), "primitiveEqualityFn", false, returnsIdent, func(sf *srcFile, body []ast.Stmt) string {
+	eqTable, _ := kindTable(findFn("primitiveEqualityFn", pkg...), "primitiveEqualityFn", false, returnsIdent, func(sf *srcFile, body []ast.Stmt) string {
 		if r := singleReturn(body, 1); r != nil {
 			return sf.oneLine(r.Results[0])
 		}
@@ -71,7 +71,7 @@ func extractTables(files map[string]*srcFile) (map[string]lval, []string) {
 	vals["eqFnTable"] = lPairs(eqTable)
 
 	// b. coerceTable
-	coTable, guard := kindTable(findFn("getMatchExprValue", ev), "getMatchExprValue", true, returnsCoerceCall, func(sf *srcFile, body []ast.Stmt) string {
+	coTable, guard := kindTable(findFn("getMatchExprValue", pkg...), "getMatchExprValue", true, returnsCoerceCall, func(sf *srcFile, body []ast.Stmt) string {
 		if len(body) == 1 && sameStrings(sf.toks(body[0]), []string{"return", "expression", ".", "Value", ".", "Raw", ",", "nil"}) {
 			return "raw"
 		}
@@ -136,7 +136,7 @@ func extractTables(files map[string]*srcFile) (map[string]lval, []string) {
 	vals["coerceBodies"] = lKeyed(cbodies)
 
 	// e. matchDispatch
-	vals["matchDispatch"] = lTriples(matchDispatch(findFn("evaluateMatchExpression", ev), pkg))
+	vals["matchDispatch"] = lTriples(matchDispatch(findFn("evaluateMatchExpression", pkg...), pkg))
 
 	// f. notPresent
 	var np lList
@@ -265,7 +265,7 @@ func extractTables(files map[string]*srcFile) (map[string]lval, []string) {
 	vals["dumpTemplates"] = lKeyed(templates)
 
 	// i. evaluateBranches
-	vals["evaluateBranches"] = lKeyed(evaluateBranches(findFn("evaluate", ev)))
+	vals["evaluateBranches"] = lKeyed(evaluateBranches(findFn("evaluate", pkg...)))
 
 	// j. funcTokens, funcFiles
 	var ftoks []keyedToks
